@@ -1,10 +1,89 @@
-import Vegeta.Go.Proto
-/-! Driver operations of property C06 (ops are named `c06.<name>`). -/
-namespace Vegeta.Driver.C06
-open Vegeta.Go Vegeta.Go.Proto
+import Vegeta.Model.Hit
+/-! Driver operations of property C06 (ops are named `c06.<name>`).
 
-def handle (_op : String) (args : List String) : Option String :=
-  match _op with
+`c06.hit <targeterErr> <target> <urlinfo> <cfg> <seq> <exchange>`
+* targeterErr: `0` | `1 <text>`
+* target: method url body header          (header = `n (key nvals v…)*`)
+* urlinfo: ok str host errText
+* cfg: maxBody chunked redirectsApplied redirects name
+* exchange: nHops (resp stopPrefix)* finalTag (`0 text` | `1 resp`) chunks
+* resp: status statusText header body failAfter(-1 = none) readErr endWithData
+-/
+namespace Vegeta.Driver.C06
+open Vegeta.Go Vegeta.Go.Proto Vegeta.Model.Hit
+
+def pHeader : P Header := listOf (do let k ← bytes; let vs ← listOf bytes; pure (k, vs))
+
+def pResp : P Resp := do
+  let status ← int
+  let st ← bytes
+  let h ← pHeader
+  let b ← bytes
+  let fa ← int
+  let re ← bytes
+  let ewd ← bool
+  pure { status := status, statusText := st, header := h, body := b,
+         failAfter := if fa < 0 then none else some fa.toNat, readErr := re, endWithData := ewd }
+
+def pExchange : P Exchange := do
+  let hops ← listOf (do let r ← pResp; let p ← bytes; pure ({ resp := r, stopPrefix := p } : Hop))
+  let tag ← nat
+  let fin ← if tag == 0 then (do let t ← bytes; pure (Final.transportErr t)) else (do let r ← pResp; pure (Final.response r))
+  let chunks ← listOf nat
+  pure { hops := hops, final := fin, chunks := chunks }
+
+def bytesLe : Bytes → Bytes → Bool
+  | [], _ => true
+  | _ :: _, [] => false
+  | a :: as, b :: bs => if a < b then true else if b < a then false else bytesLe as bs
+
+def showHeader (h : Header) : String :=
+  let hs := h.mergeSort (fun a b => bytesLe a.1 b.1)
+  toString hs.length ++ hs.foldl (fun s (k, vs) => s ++ " " ++ hexEncode k ++ " " ++ showBytesList vs) ""
+
+def showReq : Option RequestSeen → String
+  | none => "none"
+  | some r => hexEncode r.method ++ " " ++ hexEncode r.url ++ " " ++ hexEncode r.host ++ " " ++
+      (match r.body with | none => "nil" | some b => hexEncode b) ++ " " ++ toString r.contentLength ++ " " ++
+      showBytesList r.transferEncoding ++ " " ++ showHeader r.header
+
+/-- canonical summary of the body events: bytes delivered, EOF reports, error reports,
+number of Close calls, and whether the log has the shape reads* terminal+ close. -/
+def showLog (log : List Ev) : String :=
+  let total := log.foldl (fun s e => match e with | .read n => s + n | _ => s) 0
+  let eofs := (log.filter (· == .eof)).length
+  let errs := (log.filter (· == .err)).length
+  let closes := (log.filter (· == .close)).length
+  let rest := log.dropWhile (fun e => match e with | .read _ => true | _ => false)
+  let rest2 := rest.dropWhile (fun e => e == .eof || e == .err)
+  let shape := rest2 == [.close] && rest.length ≥ 2
+  toString total ++ " " ++ toString eofs ++ " " ++ toString errs ++ " " ++ toString closes ++ " " ++ (if shape then "1" else "0")
+
+def showOut (o : Out) : String :=
+  let r := o.res
+  "res " ++ hexEncode r.attack ++ " " ++ toString r.seq ++ " " ++ toString r.code ++ " " ++ toString r.bytesOut ++ " " ++
+    toString r.bytesIn ++ " " ++ hexEncode r.error ++ " " ++ hexEncode r.body ++ " " ++ hexEncode r.method ++ " " ++
+    hexEncode r.url ++ " " ++ (match r.headers with | none => "nil" | some h => showHeader h) ++
+  " | req " ++ showReq o.req ++
+  " | stop " ++ (if o.stopped then "1" else "0") ++
+  " | body " ++ (if o.obtained then "1 " ++ showLog o.bodyLog else "0")
+
+def handle (op : String) (args : List String) : Option String :=
+  match op with
+  | "c06.hit" => do
+    let (o, _) ← (do
+      let te ← nat
+      let terr ← if te == 1 then bytes else pure []
+      let m ← bytes; let u ← bytes; let b ← bytes; let h ← pHeader
+      let uok ← bool; let ustr ← bytes; let uhost ← bytes; let uerr ← bytes
+      let maxBody ← int; let chunked ← bool; let rApplied ← bool; let rn ← int; let name ← bytes
+      let seq ← nat
+      let ex ← pExchange
+      let cfg : Cfg := { maxBody := maxBody, chunked := chunked, redirects := if rApplied then some rn else none, name := name }
+      if te == 1 then pure (hitNoTarget cfg seq terr)
+      else pure (hit { method := m, url := u, body := b, header := h }
+                  { ok := uok, str := ustr, host := uhost, errText := uerr } cfg seq ex)).run args
+    pure (showOut o)
   | _ => none
 
 end Vegeta.Driver.C06
